@@ -63,6 +63,20 @@ def vector_truediv(I, self, other):
     return make_vector(*[arith("/", c, other) for c in self.fields["coordinates"]])
 
 
+FAILED = {}  # obligation name -> number of failing instances seen in this process
+
+
+def limited(eng, name, goal, limit=2):
+    """eng.check, except that an obligation already refuted on `limit` earlier paths is not refuted over and over again
+    (each refutation costs the full solver budget; the verdict of the obligation is already 'failed')."""
+    if FAILED.get(name, 0) >= limit:
+        return False
+    ok = eng.check(name, goal)
+    if not ok:
+        FAILED[name] = FAILED.get(name, 0) + 1
+    return ok
+
+
 def register(reg):
     G.install(reg)
     install_veneer_stubs(reg)
@@ -187,7 +201,7 @@ def register_point_branch(reg):
         if outcome[0] != "return":
             return
         res = outcome[1]
-        chk = lambda clause, goal: eng.check(f"{nameA}#ensures.{clause}", goal)
+        chk = lambda clause, goal: limited(eng, f"{nameA}#ensures.{clause}", goal)
         chk("returns_a_boolean", isinstance(res, bool))
         inside, parts, p, D = expected_volume(I, env)
         volume_hints(eng, parts)
@@ -217,7 +231,7 @@ def register_point_branch(reg):
         if outcome[0] != "return":
             return
         res = outcome[1]
-        chk = lambda clause, goal: eng.check(f"{nameA2}#ensures.{clause}", goal)
+        chk = lambda clause, goal: limited(eng, f"{nameA2}#ensures.{clause}", goal)
         inside, parts, p, D = expected_volume(I, env)
         volume_hints(eng, parts)
         if res is True:
@@ -253,7 +267,7 @@ def register_point_branch(reg):
         if outcome[0] != "return":
             return
         res = outcome[1]
-        chk = lambda clause, goal: eng.check(f"{nameB}#ensures.{clause}", goal)
+        chk = lambda clause, goal: limited(eng, f"{nameB}#ensures.{clause}", goal)
         occ = env.vars["_occ"]
         p, D = co(env.vars["position"]), rz(env.vars["visibleDistance"])
         tdist = G.hyp_term(eng, [a - b for a, b in zip(co(env.vars["_tv"]), p)])
@@ -296,7 +310,7 @@ def register_point_branch(reg):
         eng = I.eng
         if outcome[0] != "return":
             return
-        chk = lambda clause, goal: eng.check(f"{nameC}#ensures.{clause}", goal)
+        chk = lambda clause, goal: limited(eng, f"{nameC}#ensures.{clause}", goal)
         inside, parts, p, D = expected_volume(I, env)
         o = env.vars["orientation"]
         for oc in env.vars["_occ"]:
